@@ -255,9 +255,58 @@ def a4(ctx, rid):
         raise core.AnchorLost('Blob::open_new call sites in storage: %d' % n)
 
 
+GAUGES = ('storage::core::Storage::<K>::blobs_count', 'storage::core::Storage::<K>::records_count', 'storage::core::Storage::<K>::records_count_detailed',
+          'storage::core::Storage::<K>::records_count_in_active_blob', 'storage::core::Storage::<K>::disk_used')
+
+
+def a5(ctx, rid):
+    import waitfor
+    prog = ctx.prog
+    W = waitfor.WaitFor(prog)
+
+    def acquires_safe(c, f):
+        acq = waitfor.acquisition(c)
+        if acq and acq[2] == 'storage::core::Safe':
+            return True
+        if c.name == 'poll':
+            return False
+        for t in prog.resolve(c):
+            if t in prog.fns and any(n[0] == 'LOCK' and n[2] == 'storage::core::Safe' for n in W.may.get(t, ())):
+                return True
+        return False
+
+    for g in GAUGES:
+        if g not in prog.fns:
+            raise core.AnchorLost(g)
+        f = prog.body_of(g)
+        ev = [c for c in f.calls if c.bb in f.reachable() and acquires_safe(c, f)]
+        key = 'one-snapshot|' + g
+        twice = None
+        for e1 in ev:
+            after = f.reach_from(f.after(e1.bb))
+            for e2 in ev:
+                if e2.bb != e1.bb and e2.bb in after:
+                    twice = (e1, e2)
+        if not ev:
+            ctx.bad(rid, key, f.where(), 'the gauge does not take the storage lock')
+        elif twice:
+            ctx.bad(rid, key, twice[1].where(), 'the gauge takes the storage lock twice (%s, then %s): a close/restore/rotation can run in between and the reported number never existed' % (twice[0].name, twice[1].name))
+        else:
+            ctx.ok(rid, key, ev[0].where(), 'a single acquisition of the storage lock covers all reads')
+
+
+def a6(ctx, rid):
+    """next_blob_id accounting (C07.H6 / H6d instances): ids of opened, failed and quarantined blobs all feed the counter"""
+    import props.c07 as c07
+    c07.h6(ctx, rid)
+    c07.h6d(ctx, rid)
+
+
 RULES = [
     Rule('C15.A1', 'every header insertion is counted exactly once; the loader seeds the count from the index file, not from the key map', a1, 5),
     Rule('C15.A2', 'public accessors of the closed-blob vector agree that empty slots are absent', a2, 4),
     Rule('C15.A3', 'the corrupted-blob counter is stored only in exclusive initialisation; the per-session count follows a successful quarantine', a3, 3),
     Rule('C15.A4', 'a blob created for the active slot is installed or returned on every ok path', a4, 4),
+    Rule('C15.A5', 'the gauges named by the property read the closed list and the active slot under one storage guard (one acquisition per call)', a5, 5),
+    Rule('C15.A6', 'next_blob_id is fed by the ids of opened, failed and quarantined blobs (C07.H6/H6d instances)', a6, 4),
 ]
